@@ -2,7 +2,7 @@
 import re
 from .. import core, serve, fetch, server, httpstrict, oracles
 from ..gen import tree as treegen, req as reqgen
-from . import c04
+from . import c04, c08
 
 DECOR = {"cr": "\r", "lf": "\n", "crlf": "\r\n", "nul": "\x00", "colon": ":", "colon-space": ": ", "crlf-header": "\r\nX-Injected: 1", "lf-header": "\nX-Injected: 1", "ls": " ", "nel": "\u0085",
          "crlfcrlf": "\r\n\r\nHTTP/1.1 200 OK\r\n", "tab": "\t", "cr-header": "\rX-Injected: 1"}
@@ -192,7 +192,7 @@ def run(c):
             if o.outcome in ("panic", "died", "timeout"):
                 c.crash("Server::process(short-write transport)", o, None, rp)
                 continue
-            if oracles.mask_volatile(sv.accepted) != oracles.mask_volatile(want):
+            if c08.normalise(sv.accepted, raw) != c08.normalise(want, raw):   # timestamp masked, form-page lines sorted (their order is unspecified)
                 c.violation("C05:delivery:truncated-under-short-write:%s" % sc.split(":")[0], "transport script %s: %d of %d response bytes reached the peer (write returned Ok(n < len) and the rest was never written)" % (sc, len(sv.accepted), len(want)), rp)
             if len(c.samples) < 5 and cid.endswith("7"):
                 c.sample({"script": sc, "route": label["route"], "produced": len(want), "delivered": len(sv.accepted), "write_calls": len(sv.writes)})
